@@ -769,6 +769,9 @@ type c17Seq struct {
 	mode  string
 	cseed uint64
 	exact bool
+	// large images (> 4200 data bytes) are always judged by the oracle but sent to the (list based, slow)
+	// Lean model only when this is set
+	bigToModel bool
 }
 
 func c17RunSeq(c *Ctx, r *Rng, q c17Seq, fixed []c17Op) {
@@ -837,8 +840,11 @@ func c17RunSeq(c *Ctx, r *Rng, q c17Seq, fixed []c17Op) {
 	c.Note(fmt.Sprintf("seq-len:%d", nOps))
 	if state.small {
 		c.Note("seq:model-full-matrix")
-	} else {
+	} else if q.bigToModel {
 		c.Note("seq:model-checksum")
+	} else {
+		c.Note("seq:oracle-only(large image)")
+		return
 	}
 	st0 := s.start
 	line := fmt.Sprintf("c17 seq %s %d %d %d %d %d %d %d %s %s", st0.mkind, st0.dataW, st0.dataH, st0.left, st0.top, st0.w, st0.h,
